@@ -563,4 +563,219 @@ U_ATTW = Unit(P + '/--attach-load lines', ['_Load.as_cmdline_load_attach', 'main
                         Canary('absolute-pulse-number-not-1-based', '_Load.as_cmdline_load_attach', _PulseNotOneBased,
                                [P + '/--attach-load lines/the-lines-attach'])])
 
-UNITS = [U_WIRE, U_ARC, U_HELIX, U_TAPER, U_LOAD, U_EXC, U_MEDIUM, U_RLC, U_ATTW]
+
+
+# ---------------------------------------------------------------- distributed loads: skin effect, insulation
+def t_distributed(eng):
+    which = eng.choose(3)
+    cls = ('Skin_Effect_Load', 'Skin_Effect_Load', 'Insulation_Load')[which]
+    name = P + '/%s round trip' % ('--skin-effect-conductivity', '--skin-effect-resistivity', '--insulation-load')[which]
+    all_wires = eng.choose(2) == 1
+    g = SObj('Wire', label='g')
+    tag = fresh_int('tag')
+    eng.assume(r_cmp('>', tag, 0))
+    g.fields['tag'] = tag
+    ld = SObj(cls, label='ld')
+    ld.fields.update({'geobj': g, 'all_wires': all_wires})
+    if which == 0:
+        v = [fresh_real('sigma')]
+        ld.fields.update({'conductivity': v[0], 'resistivity': None})
+        names, opt, loop_text = ['conductivity'], '--skin-effect-conductivity', 'args.skin_effect_conductivity'
+    elif which == 1:
+        v = [fresh_real('rho')]
+        ld.fields.update({'resistivity': v[0], 'conductivity': fresh_real('sigma')})
+        names, opt, loop_text = ['resistivity'], '--skin-effect-resistivity', 'args.skin_effect_resistivity'
+    else:
+        v = [fresh_real('radius'), fresh_real('eps')]
+        ld.fields.update({'radius': v[0], 'epsilon_r': v[1]})
+        names, opt, loop_text = ['radius', 'epsilon_r'], '--insulation-load', 'args.insulation_load'
+    text = eng.call_qual(cls + '.as_cmdline', [ld, SObj('Mininec', label='m')])
+    ls = lines_of(text)
+    eng.oblige(name + '/one-option-line', len(ls) == 1)
+    if len(ls) != 1:
+        return
+    nm_, value = option_value(ls[0])
+    eng.oblige(name + '/option-name-matches-the-stored-quantity', nm_ == opt, detail=nm_)
+    if nm_ != opt:
+        return
+    loop = MS.loop_of(eng, loop_text)
+    record, regs = [], []
+    eng.summaries[cls + '.__init__'] = MS.raising_summary(record, cls, excs=())
+    eng.summaries['Mininec.register_load'] = lambda e, a, k: regs.append(list(a))
+    m2 = SObj('Mininec', label='m2')
+    geo = SObj('Geo_Container', label='geo2')
+    m2.fields['geo'] = geo
+    wires = [SObj('Wire', label='w%d' % k) for k in range(2)]
+    eng.summaries['Geo_Container.__iter__'] = lambda e, a, k: SList([('conc', list(wires))])
+    eng.schema[('Geo_Container', 'by_tag')] = 'dict:obj:Wire'
+    by_tag = eng.getfield(geo, 'by_tag')
+    eng.assume(SV(eng.dict_has(by_tag, term(tag)), 'bool'))          # the re-read model has the same objects (C15/-w ...)
+    env = {'l': value, 'm': m2, 'f_err': AStr([('lit', '<stderr>')])}
+    out = MS.run_stmts(eng, loop.body, env)
+    eng.cover('distributed-%d-%d' % (which, all_wires))
+    eng.oblige(name + '/written-line-is-accepted', out.kind == 'normal' and len(record) >= 1, detail='%s %s' % (out.kind, out.exc))
+    if out.kind != 'normal' or not record:
+        return
+    if all_wires:
+        eng.oblige(name + '/all-wires-form-reads-back-as-one-load-per-object',
+                   len(record) == len(wires) and all(r[2].get('all_wires') is True for r in record))
+    else:
+        okc = len(record) == 1 and not record[0][2].get('all_wires', False)
+        eng.oblige(name + '/tagged-form-reads-back-on-the-object-with-that-tag',
+                   okc and isinstance(record[0][1][0], SObj)
+                   and bterm(SV(record[0][1][0].ident == eng.dict_get(by_tag, term(tag)).ident, 'bool')))
+    _, a, kw, o = record[0]
+    got = [kw[n_] if n_ in kw else a[1 + k] if 1 + k < len(a) else None for k, n_ in enumerate(names)]
+    eng.oblige(name + '/values-read-back', all(x is not None for x in got)
+               and bterm(b_and(*[eng.values_equal(x, y) for x, y in zip(got, v)])))
+
+
+class _SkinAlwaysSigma(ast.NodeTransformer):
+    """always write the conductivity option, with the stored resistivity when that is what the user gave"""
+
+    def visit_Assign(self, node):
+        if ast.unparse(node.targets[0]) == 's' and 'skin-effect-resistivity' in ast.unparse(node.value):
+            node.value = ast.parse("'--skin-effect-conductivity=%g' % self.resistivity").body[0].value
+        return node
+
+
+class _InsNoTag(ast.NodeTransformer):
+    def visit_If(self, node):
+        if 'all_wires' in ast.unparse(node.test):
+            return ast.Pass()
+        return node
+
+
+U_DIST = Unit(P + '/distributed-load round trips', ['Skin_Effect_Load.as_cmdline', 'Insulation_Load.as_cmdline', 'main'], t_distributed, SCH,
+              slices={'main': 'bodies of the loops over args.skin_effect_conductivity, args.skin_effect_resistivity, args.insulation_load'},
+              canaries=[Canary('resistivity-written-under-the-conductivity-option', 'Skin_Effect_Load.as_cmdline', _SkinAlwaysSigma,
+                               [P + '/--skin-effect-resistivity round trip/']),
+                        Canary('insulation-tag-never-written', 'Insulation_Load.as_cmdline', _InsNoTag,
+                               [P + '/--insulation-load round trip/'])])
+
+
+# ---------------------------------------------------------------- Laplace loads
+def t_laplace(eng):
+    name = P + '/--laplace-load round trip'
+    na, nb = eng.choose(2) + 1, eng.choose(2) + 1
+    a = [fresh_real('a%d' % k) for k in range(na)]
+    b = [fresh_real('b%d' % k) for k in range(nb)]
+    ld = SObj('Laplace_Load', label='ld')
+    ld.fields.update({'a': SList([('conc', list(a))]), 'b': SList([('conc', list(b))])})
+    eng.summaries['_Load.as_cmdline_load_attach'] = lambda e, a_, k: AStr([('lit', '--attach-load=1,1')])
+    text = eng.call_qual('Laplace_Load.as_cmdline', [ld, SObj('Mininec', label='m')])
+    ls = lines_of(text)
+    names = [option_value(l)[0] for l in ls]
+    eng.oblige(name + '/one-a-line-and-one-b-line', names.count('--laplace-load-a') == 1 and names.count('--laplace-load-b') == 1, detail=str(names))
+    if names.count('--laplace-load-a') != 1 or names.count('--laplace-load-b') != 1:
+        return
+    va = option_value(ls[names.index('--laplace-load-a')])[1]
+    vb = option_value(ls[names.index('--laplace-load-b')])[1]
+    f = eng.get_fnode('main')
+    idx = [k for k, st in enumerate(f.body) if isinstance(st, ast.Assign) and ast.unparse(st.targets[0]) == 'laplace']
+    stmts = []
+    for st in f.body[idx[0]:]:
+        stmts.append(st)
+        if isinstance(st, ast.For) and 'Laplace_Load' in ast.unparse(st):
+            break
+    record = []
+    eng.summaries['Laplace_Load.__init__'] = MS.raising_summary(record, 'Laplace_Load', excs=())
+    env = {'args': MS.args_ns(eng, laplace_load_a=SList([('conc', [va])]), laplace_load_b=SList([('conc', [vb])])),
+           'loads': SList(), 'f_err': AStr([('lit', '<stderr>')])}
+    out = MS.run_stmts(eng, stmts, env)
+    eng.cover('laplace-%d-%d' % (na, nb))
+    eng.oblige(name + '/written-lines-are-accepted', out.kind == 'normal' and len(record) == 1, detail='%s %s' % (out.kind, out.exc))
+    if out.kind == 'normal' and len(record) == 1:
+        kw = record[0][2]
+        ga, gb = kw.get('a'), kw.get('b')
+        ok = isinstance(ga, SList) and isinstance(gb, SList) and ga.is_concrete() and gb.is_concrete() \
+            and len(ga.concrete()) == na and len(gb.concrete()) == nb
+        eng.oblige(name + '/denominator-(a)-and-numerator-(b)-coefficients-read-back-in-order',
+                   ok and bterm(b_and(*[eng.values_equal(x, y) for x, y in zip(ga.concrete() + gb.concrete(), a + b)])))
+
+
+class _LaplaceSwap(ast.NodeTransformer):
+    def visit_Constant(self, node):
+        if node.value == '--laplace-load-b=%s':
+            return ast.Constant('--laplace-load-a=%s')
+        if node.value == '--laplace-load-a=%s':
+            return ast.Constant('--laplace-load-b=%s')
+        return node
+
+
+U_LAP = Unit(P + '/--laplace-load round trip', ['Laplace_Load.as_cmdline', 'main'], t_laplace, SCH,
+             slices={'main': 'statements from `laplace = []` through the loop constructing Laplace_Load objects'},
+             notes='bounded(shape): 1..2 coefficients per polynomial',
+             canaries=[Canary('laplace-a-and-b-swapped', 'Laplace_Load.as_cmdline', _LaplaceSwap, [P + '/--laplace-load round trip/'])])
+
+
+# ---------------------------------------------------------------- transformations written by Geo_Container.as_cmdline
+def t_transforms(eng):
+    name = P + '/--geo-rotate/translate/scale round trip'
+    kind = eng.choose(3)            # rotate / translate / scale
+    tagged = eng.choose(2) == 1
+    tag = fresh_int('tag')
+    eng.assume(r_cmp('>', tag, 0))
+    gc = SObj('Geo_Container', label='gc')
+    eng.summaries['Geo_Container.__iter__'] = lambda e, a, k: SList([('conc', [])])
+    key = fresh_real('key')
+    vec = (fresh_real('x'), fresh_real('y'), fresh_real('z'))
+    factor = fresh_real('factor')
+    tname = AStr([('lit', ('rotate', 'translate')[kind])]) if kind < 2 else None
+    gc.fields['transforms'] = SList([('conc', [(key, tname, vec, tag if tagged else None)] if kind < 2 else [])])
+    gc.fields['scales'] = SList([('conc', [(factor, tag if tagged else None)] if kind == 2 else [])])
+    text = eng.call_qual('Geo_Container.as_cmdline', [gc])
+    ls = lines_of(text)
+    eng.oblige(name + '/one-option-line', len(ls) == 1, detail=str(len(ls)))
+    if len(ls) != 1:
+        return
+    nm_, value = option_value(ls[0])
+    opt = ('--geo-rotate', '--geo-translate', '--geo-scale')[kind]
+    eng.oblige(name + '/option-name', nm_ == opt, detail=nm_)
+    if nm_ != opt:
+        return
+    eng.cover('transform-%d-%d' % (kind, tagged))
+    if kind < 2:
+        loop = MS.loop_of(eng, ('args.geo_rotate', 'args.geo_translate')[kind])
+        gt = SList()
+        geo = SObj('Geo_Container', label='geo2')
+        env = {ast.unparse(loop.target): value, 'geo': geo, 'geo_transforms': gt, 'f_err': AStr([('lit', '<stderr>')])}
+        out = MS.run_stmts(eng, loop.body, env)
+        items = gt.concrete() if gt.is_concrete() else []
+        okc = out.kind == 'normal' and len(items) == 1 and len(items[0]) == 5
+        eng.oblige(name + '/written-line-is-accepted', okc, detail='%s %s' % (out.kind, out.exc))
+        if okc:
+            k2, fn, v2, t2, _ = items[0]
+            eng.oblige(name + '/sort-key-vector-and-tag-read-back',
+                       b_and(eng.values_equal(k2, key), isinstance(v2, NDArr)
+                             and bterm(b_and(*[eng.values_equal(p_, q_) for p_, q_ in zip(v2.data, vec)])),
+                             eng.values_equal(t2, tag if tagged else None)))
+            from pyvc.engine import BoundMethod
+            eng.oblige(name + '/same-operation', isinstance(fn, BoundMethod) and fn.fref.qual == 'Geo_Container.' + ('rotate', 'translate')[kind])
+    else:
+        loop = MS.loop_of(eng, 'args.geo_scale')
+        calls = []
+        eng.summaries['Geo_Container.scale'] = lambda e, a, k: calls.append(list(a))
+        env = {'scl': value, 'geo': SObj('Geo_Container', label='geo2'), 'f_err': AStr([('lit', '<stderr>')])}
+        out = MS.run_stmts(eng, loop.body, env)
+        okc = out.kind == 'normal' and len(calls) == 1
+        eng.oblige(name + '/written-line-is-accepted', okc, detail='%s %s' % (out.kind, out.exc))
+        if okc:
+            eng.oblige(name + '/factor-and-tag-read-back',
+                       b_and(eng.values_equal(calls[0][1], factor), eng.values_equal(calls[0][2], tag if tagged else None)))
+
+
+class _TransformNoTag(ast.NodeTransformer):
+    def visit_For(self, node):
+        self.generic_visit(node)
+        if 'self.transforms' in ast.unparse(node.iter):
+            node.body = [st for st in node.body if not isinstance(st, ast.If)]
+        return node
+
+
+U_TRF = Unit(P + '/transformation round trips', ['Geo_Container.as_cmdline', 'main'], t_transforms, SCH,
+             slices={'main': 'bodies of the loops over args.geo_rotate, args.geo_translate, args.geo_scale'},
+             canaries=[Canary('transformation-tag-never-written', 'Geo_Container.as_cmdline', _TransformNoTag,
+                              [P + '/--geo-rotate/translate/scale round trip/'])])
+
+UNITS = [U_WIRE, U_ARC, U_HELIX, U_TAPER, U_LOAD, U_EXC, U_MEDIUM, U_RLC, U_ATTW, U_DIST, U_LAP, U_TRF]
